@@ -51,6 +51,17 @@ def arith(ip, opn, a, b):
         if isinstance(a, (int, float)):
             return -a
         return wrap(-term(a))
+    if opn == "Mod" and isinstance(a, str):
+        # "...%s..." % args (only %s conversions): concatenation of the parts
+        args = list(b) if isinstance(b, tuple) else (list(b.items) if isinstance(b, PList) else [b])
+        pieces = a.split("%s")
+        if "%" in a.replace("%s", "").replace("%%", "") or len(pieces) != len(args) + 1:
+            raise Unsupported("string formatting other than %s")
+        out = pieces[0].replace("%%", "%")
+        for arg, lit in zip(args, pieces[1:]):
+            out = str_concat(out, ip.to_str(arg))
+            out = str_concat(out, lit.replace("%%", "%"))
+        return out
     # concrete
     if not isinstance(a, Sym) and not isinstance(b, Sym):
         if isinstance(a, (tuple, PList, SymSeq)) or isinstance(b, (tuple, PList, SymSeq)):
